@@ -428,6 +428,8 @@ func runCase(c caseT, verbose bool) (bad []string, obs string) {
 	w.srv.Mach.Dispose()
 	w.src.Dispose()
 	cancel()
+	time.Sleep(time.Minute)
+	vnet.CloseAll()
 	time.Sleep(2 * time.Minute)
 	return bad, strings.Join(o, " | ")
 }
